@@ -98,11 +98,23 @@ def run(ctx):
               "normalizeURL and _url_from_file both return %s"
               % (sorted(vals[0]) if vals else "?"),
               "the two routes build file URLs differently: %s" % exprs)
+    # the entry points as each concrete loader resolves them (an override in
+    # a subclass is compared with the same reference, its delegation to the
+    # base method seen through)
     for live, ref in (("loadURL", "loadURL"), ("loadFile", "loadFile")):
-        lf = m.fn(BL + "." + live)
-        r = X.compare(P, lf, X.spec_method(P, "ref_loader.py", ref, BL),
-                      rename=_rename)
-        _verdict(run, "C18.R3", lf, "normalise once, then open", r, m)
+        seen = []
+        for cq in (BL, LD + ".SchemaLoader", LD + ".ConfigLoader",
+                   "ZConfig.cmdline.ExtendedConfigLoader"):
+            lf = m.lookup_method(cq, live)
+            if lf is None:
+                raise AnalysisError("anchor vanished: %s.%s" % (cq, live))
+            if lf in seen:
+                continue
+            seen.append(lf)
+            r = X.compare(P, lf, X.spec_method(P, "ref_loader.py", ref, BL),
+                          rename=_rename,
+                          live_kw={"inline": lambda f, n=live: f.name == n})
+            _verdict(run, "C18.R3", lf, "normalise once, then open", r, m)
 
     _r4(ctx)
     # the fourth gate: an %include target goes through normalizeURL (and so
